@@ -55,7 +55,9 @@ Problem gen_problem(vf::Tape & t, vf::Ctx & ctx, int M, int N)
   ctx.label(p.rank_class == 0 ? "J:generic" : (p.rank_class == 1 ? "J:zero/duplicate-column" : "J:rank-k-product"));
   ctx.label(m >= n ? "J:tall-or-square" : "J:wide");
   p.d.resize(n);
-  for (int j = 0; j < n; ++j) p.d(j) = t.choice(4) == 0 ? 1.0 : t.lrange(1e-3, 1e3);
+  const bool dwell = t.choice(3) == 0;  // a third of the cases: D within a factor 4 (the class in which dphi is judged)
+  for (int j = 0; j < n; ++j) p.d(j) = dwell ? t.lrange(0.5, 2.0) : (t.choice(4) == 0 ? 1.0 : t.lrange(1e-3, 1e3));
+  ctx.label(dwell ? "d:within-factor-4" : "d:1e-3..1e3");
   p.r.resize(m);
   const auto rc = t.choice(4);
   for (int i = 0; i < m; ++i) p.r(i) = rc == 0 ? 0.0 : t.sym(10.0);
@@ -68,6 +70,20 @@ Problem gen_problem(vf::Tape & t, vf::Ctx & ctx, int M, int N)
     ctx.label("r:zero");
   }
   p.lambda = t.lrange(1e-6, 1e6);
+  // overall scales of J, d and r ("for every J, positive d"): the solution is equivariant, the code need not be
+  // (absolute thresholds, pruning of small products); exact powers of ten / two so that the problem stays the same
+  const auto sc = t.choice(4);
+  if (sc == 1 || sc == 3) {
+    const long k = t.irange(-8, 8);
+    p.J *= std::pow(10.0, static_cast<double>(k));
+    ctx.label(k <= -5 ? "scale:J<=1e-5" : (k >= 5 ? "scale:J>=1e5" : "scale:J-moderate"));
+  }
+  if (sc == 2 || sc == 3) {
+    const long k = t.irange(-8, 8);
+    p.d *= std::pow(10.0, static_cast<double>(k));
+    ctx.label(k <= -5 ? "scale:d<=1e-5" : (k >= 5 ? "scale:d>=1e5" : "scale:d-moderate"));
+  }
+  if (sc == 0) ctx.label("scale:unit");
   return p;
 }
 
@@ -143,12 +159,17 @@ void check_solution(const char * kind, const Problem & p, const Ref & R, const J
   }
   // relative accuracy of dphi: conditioning of the solve and of the product J'r (cancellation)
   const LD gcanc = R.g.norm() > 0 ? JnRn / R.g.norm() : std::numeric_limits<LD>::infinity();
-  const LD relt  = 1e-5L + 100 * R.cond * 2.3e-16L + 100 * gcanc * 2.3e-16L;
-  if (relt < 1e-2L) {
+  const LD relt  = 1e-5L + 400 * R.cond * 2.3e-16L + 100 * gcanc * 2.3e-16L;
+  // dphi is judged where D is well scaled (d_max / d_min <= 10): with a badly scaled D the components of dx that carry
+  // the large weights are rounding noise of the solve and no tolerance in terms of cond(H) alone is sound (errors of
+  // 5e4 cond eps were observed on the unchanged tree); formula errors (sign, factor, normalisation) show in this class
+  const bool dscaled = d.maxCoeff() <= 10 * d.minCoeff();
+  if (!dscaled) ctx.label("dphi:not-judged(badly-scaled-D)");
+  if (relt < 1e-3L && dscaled) {
     // dphi = -q'H^{-1}q / |D dx| with q = D^2 dx: when |D dx| barely depends on lambda the quadratic form is small
     // against |q| |H^{-1} q| and can only be computed relative to the latter
-    const LD sc = std::max<LD>({std::abs(ref), qy, 1e-300L}) + 100 * R.cond * 2.3e-16L * qx / relt;
-    ctx.label(100 * R.cond * 2.3e-16L * qx > relt * std::max<LD>(std::abs(ref), qy) ? "dphi:tolerance-dominated-by-D-scaling" : "dphi:tolerance-relative-to-value");
+    const LD sc = std::max<LD>({std::abs(ref), qy, 1e-300L}) + 400 * R.cond * 2.3e-16L * qx / relt;
+    ctx.label(400 * R.cond * 2.3e-16L * qx > relt * std::max<LD>(std::abs(ref), qy) ? "dphi:tolerance-dominated-by-D-scaling" : "dphi:tolerance-relative-to-value");
     if (nrm > 0 && nrm > 1e-9L * (R.g.norm() / std::max<LD>(R.Hnorm, 1e-300L))) {
       ctx.le(std::string(kind) + ": dphi == closed-form derivative", static_cast<double>(std::abs(static_cast<LD>(dphi) - ref) / sc), static_cast<double>(relt));
       // independent of the closed form: complex-step derivative of phi(lambda) = sqrt(sum (d_i x_i(lambda))^2)
@@ -193,6 +214,15 @@ void c10_solve(vf::Tape & t, vf::Ctx & ctx)
     check_solution("dense", p, R, p.J, ctx, &dxd);
   }
   const Eigen::SparseMatrix<double> Jsp = p.J.sparseView();
+  // Known finding "c10.sparse.singular": when lambda d^2 is below the rounding of J'J (cond(H) > 1e14) the matrix
+  // formed in double is not numerically positive definite; the dense path (pivoted LDLT) still meets the backward
+  // error, the sparse path (SimplicialLDLT, no pivoting, info() not checked) returns an unrelated vector.
+  const bool singular = R.cond > 1e14L;
+  if (singular) ctx.label("cond(H)>1e14");
+  if (singular && vf::Ctx::known_open("c10.sparse.singular")) {
+    ctx.exclude_known("c10.sparse.singular");
+    return;
+  }
   check_solution("sparse", p, R, Jsp, ctx, &dxs);
   if (R.cond <= 1e8L) {
     // relative to |dx|, plus the part of dx that is rounding noise of the product J'r (r orthogonal to range(J): J'r
